@@ -9,7 +9,7 @@ from .report import V
 
 _G = {}
 USED_UNITS = {'water': ['umol', 'mL', 'g'], 'nacl': ['umol', 'mmol', 'mg'], 'dmso': ['umol', 'uL', 'mg'],
-              'lipase': ['U'], 'tea': ['umol', 'mL', 'mg'], 'na2so4': ['umol']}
+              'lipase': ['U'], 'tea': ['umol', 'mL', 'mg'], 'na2so4': ['umol'], 'lipase_s': ['umol', 'mg']}
 FLOW_UNITS = ['uL', 'mL', 'mg', 'umol', 'U']
 
 
@@ -53,6 +53,7 @@ class Ledger:
         self.n = len(program)
         self.names = sorted(e2.expected_names(program))
         subs = e1.substances(pp, vidx, twins=False)
+        subs['lipase_s'] = e1.substances(pp, vidx)['lipase_s']        # the twin that the E2 world holds (in B)
         self.subs = subs
 
     def amt(self, i, name, sub):
@@ -396,7 +397,86 @@ def analyze(item):
             case = dict(case, vidx=vidx, program=program)
             out.append(V(sig, msg, case, exp, got))
         classes.add((label.split('-cut')[0], len(vs) > 0))
-    return out, queries, dcs, classes, len(lays) + len(program) + 1
+    # ---- a second recipe built from the results of the first (a non-initial state; objects that were already asked) -----
+    nb_extra = 0
+    if len(program) >= 2 and which == 'C09':
+        vs, q = chained(pp, vidx, ledger, program)
+        vs = reclassify_renamed(program[-1:], vs)          # (a rename by the last step: the known finding)
+        nb_extra = 1
+        queries += q
+        for sig, msg, case, exp, got in vs:
+            out.append(V(sig, msg, dict(case, vidx=vidx, program=program), exp, got))
+        classes.add(('chained', len(vs) > 0))
+    return out, queries, dcs, classes, len(lays) + len(program) + 1 + nb_extra
+
+
+def chained(pp, vidx, ledger, program):
+    """Recipe 1 = the program without its last step: baked and ASKED about every substance. Recipe 2 declares the objects that
+    recipe 1 returned (and pristine ones it never saw), performs the last step alone and is asked about it: the answer is
+    the ledger's contribution of that step, whatever the objects went through before and whoever looked at them."""
+    n = len(program)
+    last = program[-1]
+    b1 = e2.bake(pp, vidx, program[:-1])
+    if not b1['ok']:
+        return [], 0
+    r1 = b1['recipe']
+    q = 0
+    for sname, sub in sorted(ledger.subs.items()):          # looking must not change anything
+        for dest in ['plates'] + [[o] for o in b1['results'].values()]:
+            q += 1
+            try:
+                r1.get_substance_used(sub, 'all', USED_UNITS[sname][0], dest)
+            except ValueError:
+                pass
+    subs, world2 = e2.world_after(pp, vidx, b1['results'], e2.outside_mentioned(program))
+    r2 = pp.Recipe()
+    names = []
+    for x in e2.mentions(last):
+        if x in world2 and x not in names:
+            names.append(x)
+    vs = []
+    text = ' ; '.join(e1.act_str(a) for a in program)
+    case = {'layout': 'chained', 'query': None}
+    try:
+        for x in names:
+            r2.uses(world2[x])
+        e2.add_step(pp, subs, world2, {}, r2, last)
+        res2 = r2.bake()
+    except Exception as e:  # noqa
+        return [("bake | second-recipe-differs | raises",
+                 f"program [{text}]: the last step alone, in a second recipe that uses the results of the first, raises "
+                 f"{type(e).__name__}: {e}", case, 'returns', type(e).__name__)], q
+    dnames = [x for x in res2 if x in ledger.names]
+    for sname, sub in sorted(ledger.subs.items()):
+        unit = USED_UNITS[sname][0]
+        for d in dnames:
+            c = ledger.contribution(n - 1, sub, [d])
+            noise = ledger.involved(n - 1) * 10.0 ** -pp.config.internal_precision * 10
+            q += 1
+            got, outcome = _ask_used(r2, sub, 'all', unit, [res2[d]])
+            case = {'layout': 'chained', 'query': ['used', sname, d, 'all', unit]}
+            where = (f"program [{text}]: recipe 2 (uses the results of recipe 1, performs the last step): "
+                     f"get_substance_used({sname}, 'all', {unit!r}, destinations={d})")
+            tol = 0.5 * 10.0 ** -prec(pp, unit) * 1.000001 + abs(stored_to_unit(pp, sub, noise, unit))
+            if outcome not in ('value', 'ValueError'):
+                vs.append((f"get_substance_used | second-recipe | raises={outcome}", f"{where} raised {outcome}", case, None, outcome))
+            elif abs(c) <= noise:
+                if outcome == 'value' and abs(got) > tol:
+                    vs.append(("get_substance_used | second-recipe | tracking-mismatch", f"{where} = {got!r}, the ledger says nothing "
+                               f"changed", case, 0.0, got))
+            elif c < 0:
+                if outcome != 'ValueError':
+                    vs.append(("get_substance_used | second-recipe | net-decrease-not-refused", f"{where} returned {got!r}", case,
+                               'ValueError', got))
+            else:
+                want = stored_to_unit(pp, sub, c, unit)
+                if outcome == 'ValueError' or abs(got - want) > tol + 1e-9 * abs(want):
+                    vs.append(("get_substance_used | second-recipe | tracking-mismatch",
+                               f"{where} = {got if outcome == 'value' else outcome!r}, the ledger says {want!r}", case, want,
+                               got if outcome == 'value' else outcome))
+            if vs:
+                return vs, q
+    return vs, q
 
 
 def run(col, which, depth_quick=3, depth_thorough=4):
